@@ -20,6 +20,16 @@ func mustDepend(v ssa.Value, leaf func(ssa.Value) bool) bool {
 	return mustDependRec(v, leaf, map[ssa.Value]bool{}, 0)
 }
 
+// mustDependMem is mustDepend that also treats a value loaded from a container element or
+// field as depending on the container (x.f, a[i] depend on x, a).
+func mustDependMem(v ssa.Value, leaf func(ssa.Value) bool) bool {
+	throughMemory = true
+	defer func() { throughMemory = false }()
+	return mustDependRec(v, leaf, map[ssa.Value]bool{}, 0)
+}
+
+var throughMemory bool
+
 func mustDependRec(v ssa.Value, leaf func(ssa.Value) bool, seen map[ssa.Value]bool, depth int) bool {
 	if v == nil || depth > 40 {
 		return false
@@ -69,6 +79,14 @@ func mustDependRec(v ssa.Value, leaf func(ssa.Value) bool, seen map[ssa.Value]bo
 					}
 				}
 				return true
+			}
+			if throughMemory {
+				switch a := x.X.(type) {
+				case *ssa.IndexAddr:
+					return rec(a.X)
+				case *ssa.FieldAddr:
+					return rec(a.X)
+				}
 			}
 			return false
 		}
